@@ -45,11 +45,19 @@ use std::sync::{Arc, Mutex};
 
 const NTYPES: u64 = 3;
 
+/// `q<k>`: strings with leading / trailing / only blanks, the empty string, and texts that look like a number, a boolean or null
+/// (with and without blanks around them).  As a FACT value `q<k>` is the string itself; as a condition LITERAL it is the alpha
+/// node's value text, which `AlphaNode::parse_value_string` classifies WITHOUT trimming: "7" is Integer 7, "7 " stays the string
+/// "7 ", "1.5" is Float 1.5, "true" Boolean, "null" Null (Lean: `C06.oddStrings`, `C06.classifyLit`, identifiers 5000 + k).
+const QS: [&str; 22] = ["", " ", "  ", "7 ", " 7", "7", " 7 ", "1.5", "1.5 ", "true", " true", "null", "null ", "a ", " a", "a b", " a ",
+    "a\t", "-4", "15", "b ", " ab"];
+
 fn parse_val(s: &str) -> Option<FactValue> {
     match s.as_bytes().first()? {
         b'i' => s[1..].parse().ok().map(FactValue::Integer),
         b'b' => Some(FactValue::Boolean(&s[1..] == "1")),
         b's' => Some(FactValue::String(s.to_string())),
+        b'q' => s[1..].parse::<usize>().ok().and_then(|k| QS.get(k)).map(|t| FactValue::String(t.to_string())),
         // h<2x>: the float x, an exact half-integer (no rounding on either side of the wire)
         b'h' => s[1..].parse::<i64>().ok().map(|t| FactValue::Float(t as f64 / 2.0)),
         b'n' if s == "n" => Some(FactValue::Null),
@@ -69,6 +77,7 @@ fn show_val(v: &FactValue) -> String {
         FactValue::Boolean(b) => format!("b{}", if *b { 1 } else { 0 }),
         FactValue::String(s) if s.len() > 1 && s.starts_with('s') && s[1..].bytes().all(|c| c.is_ascii_digit()) => s.clone(),
         FactValue::String(s) if !s.is_empty() && s.bytes().all(|c| (b'a'..=b'c').contains(&c)) => format!("w{}", s),
+        FactValue::String(s) if QS.contains(&s.as_str()) => format!("q{}", QS.iter().position(|t| t == s).unwrap()),
         FactValue::String(s) => match EXPR_TEXTS.lock().unwrap().iter().position(|t| t == s) {
             // the text of a bare field reference `T<t>.f<k>` is the string a dangling variable reference degrades to: s<1000+100t+k>
             Some(i) => match s.strip_prefix('T').and_then(|r| r.split_once(".f")).and_then(|(t, k)| Some((t.parse::<u64>().ok()?, k.parse::<u64>().ok()?))) {
@@ -162,7 +171,7 @@ fn alpha_val(v: &str) -> Option<String> {
         b'i' => v[1..].parse::<i64>().ok()?.to_string(),
         b'b' => (if &v[1..] == "1" { "true" } else { "false" }).to_string(),
         b's' => v.to_string(),
-        b'w' => match parse_val(v)? { FactValue::String(t) => t, _ => return None },
+        b'w' | b'q' => match parse_val(v)? { FactValue::String(t) => t, _ => return None },
         b'h' => format!("{:?}", v[1..].parse::<i64>().ok()? as f64 / 2.0),
         b'n' if v == "n" => "null".to_string(),
         _ => return None,
@@ -296,7 +305,7 @@ fn grl_val(v: &str) -> Option<String> {
         b'i' => v[1..].parse::<i64>().ok()?.to_string(),
         b'b' => (if &v[1..] == "1" { "true" } else { "false" }).to_string(),
         b's' => format!("\"{}\"", v),
-        b'w' => format!("\"{}\"", alpha_val(v)?),
+        b'w' | b'q' => format!("\"{}\"", alpha_val(v)?),
         b'h' => format!("{:?}", v[1..].parse::<i64>().ok()? as f64 / 2.0),
         b'n' if v == "n" => "null".to_string(),
         _ => return None,
@@ -1281,8 +1290,78 @@ fn gen_arith_case(rng: &mut Rng) -> String {
     format!("{} {}", rules.join("/"), ops.join(" "))
 }
 
+/// family "blanks and look-alikes" (seeded change C06-15: a `parse_value_string` that trims stand-alone literals): condition literals
+/// and fact values from the table `QS` — strings with leading / trailing / only blanks, the empty string, texts that read as a number,
+/// a boolean or null, with and without blanks around them.  `AlphaNode::parse_value_string` classifies the literal TEXT without
+/// trimming: `T.f == "7 "` is a comparison with the STRING "7 " (true of the fact that holds "7 ", false of Integer 7), `T.f == "7"`
+/// one with Integer 7 (false of the fact that holds the string "7"); `contains " "` is true of "a b" and false of "ab"; the
+/// empty pattern is contained in every string.  Every string operator and every comparison (a numeric-looking string fact value
+/// has a float value: `"15" > 7`), alone, negated, in conjunctions / disjunctions, against literals, fields and words; facts hold
+/// table strings, words, and the numbers / booleans / null the look-alikes read as.  Mostly quiet no-loop rule sets (both
+/// exactness clauses apply); every rule also goes through GRL text and the real loader; one rule in four uses `with_typed_value`.
+fn gen_blank_case(rng: &mut Rng) -> String {
+    let nq = QS.len() as u64;
+    let ntypes = if rng.chance(2, 3) { 1 } else { 2 };
+    let q = |rng: &mut Rng| format!("q{}", rng.below(nq));
+    let fval = |rng: &mut Rng| -> String {
+        match rng.below(10) {
+            0..=5 => format!("q{}", rng.below(nq)),
+            6 => rng.pick(&["wa", "wab", "wb", "s0"]).to_string(),
+            7 => rng.pick(&["i7", "i15", "i-4", "i0"]).to_string(),
+            8 => rng.pick(&["h3", "h14", "b1", "b0"]).to_string(),
+            _ => "n".to_string(),
+        }
+    };
+    let leaf = |rng: &mut Rng, ty: u64| -> String {
+        let f = rng.below(2);
+        match rng.below(10) {
+            0..=3 => format!("A.{}.{}.{}.{}", ty, f, *rng.pick(&["ct", "sw", "ew"]), q(rng)),
+            4 | 5 | 6 => format!("A.{}.{}.{}.{}", ty, f, *rng.pick(&["eq", "eq", "ne"]), q(rng)),
+            7 => format!("A.{}.{}.{}.{}", ty, f, *rng.pick(&["lt", "le", "gt", "ge"]), if rng.chance(2, 3) { q(rng) } else { fval(rng) }),
+            8 => format!("A.{}.{}.{}.v{}_{}", ty, f, *rng.pick(&["ct", "sw", "ew", "eq", "ne", "le", "gt"]), ty, 1 - f),
+            _ => format!("A.{}.{}.{}.{}", ty, f, *rng.pick(&["ct", "sw", "ew", "eq", "ne", "ge"]), fval(rng)),
+        }
+    };
+    let mut prios: Vec<i64> = vec![-5, 0, 1, 7, 20];
+    rng.shuffle(&mut prios);
+    let quiet = rng.chance(3, 4);
+    let nrules = rng.range(1, 3) as usize;
+    let mut rules = Vec::new();
+    for i in 0..nrules {
+        let ty = rng.below(ntypes);
+        let node = match rng.below(8) {
+            0 => format!("!({})", leaf(rng, ty)),
+            1 => format!("&({},{})", leaf(rng, ty), leaf(rng, ty)),
+            2 => format!("+({},!({}))", leaf(rng, ty), leaf(rng, ty)),
+            _ => leaf(rng, ty),
+        };
+        let action = if quiet { "-".to_string() } else {
+            match rng.below(4) { 0 => "R".to_string(), 1 => format!("{}={}", rng.below(2), fval(rng)), _ => "-".to_string() }
+        };
+        rules.push(format!("{}:{}:{}{}:{}:{}", ty, prios[i], if quiet || rng.chance(7, 8) { 1 } else { 0 },
+            if rng.chance(1, 4) { "v" } else { "" }, node, action));
+    }
+    let data = |rng: &mut Rng| -> String {
+        let mut items = Vec::new();
+        for f in 0..2 { if rng.chance(5, 6) { items.push(format!("{}={}", f, fval(rng))); } }
+        if items.is_empty() { "-".into() } else { items.join(",") }
+    };
+    let mut ops = Vec::new();
+    let single = rng.chance(2, 3);
+    let nfacts = if single { ntypes } else { rng.range(1, 4) };
+    for i in 0..nfacts { ops.push(format!("{}{}:{}", if rng.chance(1, 5) { "E" } else { "I" }, if single { i } else { rng.below(ntypes) }, data(rng))); }
+    ops.push("F".into());
+    for _ in 0..rng.below(4) {
+        if rng.chance(2, 3) { ops.push("Z".into()); }
+        for h in 1..=nfacts { if rng.chance(2, 3) { ops.push(format!("U{}:{}", h, data(rng))); } }
+        if rng.chance(1, 8) { ops.push(format!("X{}", rng.range(1, nfacts))); }
+        ops.push("F".into());
+    }
+    format!("{} {}", rules.join("/"), ops.join(" "))
+}
+
 fn gen(rng: &mut Rng, n: usize, _tier: &str) -> Vec<String> {
-    (0..n).map(|i| match i % 50 {
+    let mut out: Vec<String> = (0..n).map(|i| match i % 50 {
         8 | 18 | 28 | 38 | 48 | 10 | 20 | 30 | 40 | 0 => gen_arith_case(rng),
         34 | 49 | 33 => gen_touch_one_case(rng),
         1 | 11 | 21 | 31 | 41 | 6 | 26 | 46 => gen_entry_case(rng),
@@ -1295,7 +1374,10 @@ fn gen(rng: &mut Rng, n: usize, _tier: &str) -> Vec<String> {
         3 | 13 | 23 | 33 | 43 => gen_case_with(rng, true, false),
         5 | 15 | 25 | 35 | 45 => gen_case_with(rng, false, true),
         _ => gen_case(rng),
-    }).collect()
+    }).collect();
+    // appended (the stream of the families above stays what it was): blanks and look-alikes
+    for _ in 0..n / 6 { out.push(gen_blank_case(rng)); }
+    out
 }
 
 fn shrink(case: &str) -> Vec<String> {
